@@ -74,6 +74,8 @@ type gen struct {
 	r    *rand.Rand
 	n    int            // unique-name counter (package wide)
 	feat map[string]int // feature usage counters (merged into the evidence)
+	// rootNamed: helper methods on the root resolver type already placed (one per name and package)
+	rootNamed map[string]bool
 }
 
 func (g *gen) id() int { g.n++; return g.n }
@@ -428,7 +430,22 @@ func (g *gen) helper(resolverStruct string, term bool) helper {
 	n := g.id()
 	t := term
 	str := func() string { v := g.strContent(t); t = false; return v }
-	switch g.r.Intn(12) {
+	switch g.r.Intn(14) {
+	case 12, 13:
+		// a helper method on the root resolver type that is named like a schema type without resolver
+		// fields (an input object, a plain object): user code like any other
+		for _, name := range []string{"InA", "Plain"} {
+			if g.rootNamed == nil {
+				g.rootNamed = map[string]bool{}
+			}
+			if !g.rootNamed[name] {
+				g.rootNamed[name] = true
+				g.use("helper_method_on_root_resolver_named_like_a_type")
+				return helper{Text: fmt.Sprintf("// %[1]s builds a value (user helper %[2]d).\nfunc (r *Resolver) %[1]s(q string) string {\n\treturn q + \"%[3]s\"\n}", name, n, str()),
+					Kind: "root_resolver_method", Term: term}
+			}
+		}
+		fallthrough
 	case 0:
 		g.use("helper_func")
 		c := ""
@@ -545,6 +562,26 @@ func editFiles(r *rand.Rand, files map[string]*fileInfo, opts editOpts) (*editRe
 				helperExprs = append(helperExprs, h.Exprs...)
 				res.Helpers++
 			}
+		}
+	}
+
+	if !opts.Pure {
+		// every edited project: one helper method on the root resolver type named like the plain
+		// object type of the schema (a type without resolver fields)
+		for _, n := range names {
+			if len(files[n].Methods) == 0 {
+				continue
+			}
+			if g.rootNamed == nil {
+				g.rootNamed = map[string]bool{}
+			}
+			if !g.rootNamed["Plain"] {
+				g.rootNamed["Plain"] = true
+				g.use("helper_method_on_root_resolver_named_like_a_type")
+				helpers = append(helpers, placed{helper{Text: "// Plain builds a value (user helper).\nfunc (r *Resolver) Plain(q string) string {\n\treturn q + \"plain\"\n}", Kind: "root_resolver_method"}, n})
+				res.Helpers++
+			}
+			break
 		}
 	}
 
